@@ -120,6 +120,11 @@ def strategy(tier: str, pid: str = "C18") -> st.SearchStrategy[Any]:
         st.tuples(st.just("msg"), st.integers(0, 3), _battery()).map(list),
         st.tuples(st.just("work"), st.lists(st.booleans(), min_size=4, max_size=4)).map(list),
         st.tuples(st.just("adv"), st.sampled_from([0.3, 0.7, 1.1, 2.3])).map(list),
+        # the battery's previous message once more, values unchanged (the steady state of a real component)
+        st.tuples(st.just("again"), st.integers(0, 3)).map(list),
+        st.tuples(st.just("again"), st.integers(0, 3)).map(list),
+        # a status blip: everything but one battery keeps working, then all work again
+        st.tuples(st.just("blip"), st.integers(0, 3)).map(list),
     )
     pipeline = st.fixed_dictionaries({
         "kind": st.just("pipeline"),
@@ -235,11 +240,27 @@ def _run_pipeline(case: dict[str, Any], v: Verdict) -> None:
                 armed[b] = loop.time()
             latest: Any = None
             got_any = False
-            for step, op in enumerate(case["ops"]):
+            last_rec: dict[int, Any] = {}
+            flat_ops: list[Any] = []
+            for op in case["ops"]:
+                if op[0] == "blip":
+                    off = op[1] % nbat
+                    flat_ops += [["work", [b != off for b in range(4)]], ["work", [True] * 4], ["again", off]]
+                else:
+                    flat_ops.append(op)
+            for step, op in enumerate(flat_ops):
                 where = f"step {step} {op[0]}"
+                if op[0] == "again":
+                    if op[1] % nbat not in last_rec:
+                        continue
+                    op = ["msg", op[1], last_rec[op[1] % nbat]]
+                    v.labels.add("unchanged_message_repeated")
+                    if cache[op[1] % nbat] is None:
+                        v.labels.add("unchanged_message_after_status_blip")
                 if op[0] == "msg":
                     b = op[1] % nbat
                     rec = op[2]
+                    last_rec[b] = rec
                     nan = float("nan")
                     await api.send(bat_id[b], fakes.battery_data(
                         bat_id[b], world.now(),
